@@ -133,6 +133,63 @@ func c33(c *an.Check) {
 		}
 	}
 	c.Require(incs == 1 && decs == 1, "PROVENANCE", "hold-open link counter: one increment per add, one decrement per remove", added, "", incs+decs, "valCount++ in HandleValueAdded, valCount-- in HandleValueRemoved", "the link counter is not updated exactly once per notification")
+	// ... synchronously, in the notification callback itself: a count that is updated by a goroutine spawned only for
+	// some notifications misses the others (a second link is never counted, the first removal releases the reference)
+	syncCnt, whySync := true, ""
+	for _, a := range p.FieldAccesses(cntF, p.PkgFuncs(hoPkg)) {
+		if a.Kind == an.Write && a.Fn != added && a.Fn != removed && an.Outermost(a.Fn) != nil && (an.InFuncs(added)(a.Fn) || an.InFuncs(removed)(a.Fn)) {
+			syncCnt, whySync = false, "the link counter is updated in "+an.FuncName(a.Fn)+" (a function literal that runs later / only sometimes), not in the notification callback itself"
+		}
+	}
+	c.Require(syncCnt, "PROVENANCE", "hold-open link counter is updated synchronously by the notification callbacks", added, "", incs+decs, "the writes sit in HandleValueAdded / HandleValueRemoved themselves", whySync)
+	// a strong reference that was acquired is kept in the slot or released: no path drops it on the floor
+	nAcq := 0
+	for _, g := range p.PkgFuncs(hoPkg) {
+		g := g
+		var acq []*ssa.Call
+		for _, b := range g.Blocks {
+			for _, ins := range b.Instrs {
+				if call, ok := ins.(*ssa.Call); ok && call.Call.IsInvoke() && call.Call.Method.Name() == "AddReference" && len(call.Call.Args) == 2 && isFalseConst(call.Call.Args[1]) {
+					acq = append(acq, call)
+				}
+			}
+		}
+		if len(acq) == 0 {
+			continue
+		}
+		nAcq += len(acq)
+		isAcq := func(i ssa.Instruction) bool {
+			for _, a := range acq {
+				if i == ssa.Instruction(a) {
+					return true
+				}
+			}
+			return false
+		}
+		c.Gate(an.GateSpec{Rule: "MUSTCALL", Construct: "hold-open keeps or releases an acquired strong reference", Fn: g,
+			Sink: func(s *an.State, ins ssa.Instruction) bool {
+				_, isRet := ins.(*ssa.Return)
+				return isRet && s.Executed(ins, isAcq)
+			},
+			Reqs: []an.Req{{Name: "the acquired reference was stored in the slot or released", Holds: func(s *an.State, at ssa.Instruction) bool {
+				return s.Executed(at, func(i ssa.Instruction) bool {
+					if v, _, ok := storeTo(i, rigidF); ok && !isNilConst(v) {
+						return true
+					}
+					var cc *ssa.CallCommon
+					switch x := i.(type) {
+					case *ssa.Call:
+						cc = x.Common()
+					case *ssa.Go:
+						cc = x.Common()
+					case *ssa.Defer:
+						cc = x.Common()
+					}
+					return cc != nil && cc.IsInvoke() && cc.Method.Name() == "Release"
+				})
+			}}}})
+	}
+	c.Require(nAcq >= 1, "MUSTCALL", "hold-open strong reference acquisition found", added, "", nAcq, "AddReference(nil, false) call sites", "no strong AddReference call found (anchor drift)")
 	c.Note("not decided: quiescent equality for all schedules (a model-checking statement); the rules give the lock discipline and the re-validation that such a proof would need")
 }
 
